@@ -37,6 +37,7 @@ InDomain(e) ==
     /\ (IOEnv.C09_KNOWN_BAD = "include" \/ ~KnownBadCombination(e.svd, e.dtype, e.pow2))   \* ./check C09 --opt known_bad=include
     /\ (e.dtype \in {"int64", "int32"} => e.ten.op = "matching" \/ e.ten.fam \in IntegerFams)
     /\ ValidRankSpec(e.cfg, e.rspec, e.frac) /\ e.via \in Vias
+    /\ ValidHow(e)
     /\ e.mspec \in ModeSpecs /\ (e.cfg.op # "tr" => e.mspec = "int")
     /\ (e.via = "refit" => /\ Len(e.pre) = Len(e.cfg.shape)
                             /\ \A k \in 1..Len(e.pre) : e.pre[k] \in 1..16)       \* shape of the tensor fitted first
